@@ -528,6 +528,9 @@ class Interp:
             a, b, out, wh = vec(args[0]), args[1], kw['out'], kw['where']
             if not (isinstance(b, Val) and b.shape in ('s', 'r2')):
                 _err(node, 'np.divide: divisor must be a (per-row) scalar')
+            if isinstance(out, Val) and out.data == a.data:
+                _err(node, 'np.divide writes its result into the dividend (out= aliases an argument): in-place '
+                           'modification of a caller-owned array is a side effect the pure model cannot express')
             if not (isinstance(out, Val) and out.shape == a.shape and len(out.data) == len(a.data) and
                     all(t == ('int', 0) for t in out.data)):
                 _err(node, 'np.divide: out must be a zero array of the shape of the dividend')
